@@ -52,6 +52,7 @@ def main():
                         if "." in k2 and k2 not in rf2:
                             ch.setdefault(k2.split(".", 1)[1], v2[0])
             table = equiv.HelperTable(mh, ch, al.get(cls, {}) if cls else {}, cls)
+            equiv._set_family(cls)   # list-typed attributes of the class family (as substitute_equivalents does)
             a = ast.unparse(equiv.canon(rf[q][0])).splitlines()
             b = ast.unparse(equiv.canon(node, table)).splitlines()
             print(f"  --- {q}: normal forms differ")
